@@ -28,7 +28,7 @@ def run_c07(tier, seed):
         runs, races, other_fail = [], [], []
         procs = []
         for i, (typ, order, workers, keys) in enumerate(configs):
-            args = [vr, "-type", typ, "-order", str(order), "-workers", str(workers), "-keys", str(keys), "-dur", dur, "-seed", str(seed + i), "-counter"]
+            args = [vr, "-type", typ, "-order", str(order), "-workers", str(workers), "-keys", str(keys), "-dur", dur, "-seed", str(seed + i), "-counter"] + (["-nodelete"] if order == 2 else [])
             env = dict(os.environ, GORACE="halt_on_error=1 exitcode=66")
             procs.append((args, subprocess.Popen(args, stdout=subprocess.PIPE, stderr=subprocess.PIPE, text=True, env=env)))
         total_ops = 0
